@@ -120,6 +120,19 @@ def sweep_pairs(pool: dict) -> list[dict]:
             pairs.append({"ops": [["iban", acc, {"validate_bban": True}],
                                   ["iban", rej, {"validate_bban": True}]],
                           "targets": [key, key], "label": f"{key} IBAN accept x reject"})
+    # IBAN-level pairs across different banks / methods (shared lookup paths, no shared method object)
+    keys = sorted(k for k in pool["de_ibans"] if pool["de_ibans"][k])
+    for i, key in enumerate(keys):
+        other = keys[(i + 1) % len(keys)]
+        acc = first(pool["de_ibans"][key], lambda c: c.startswith("accept"))
+        rej = first(pool["de_ibans"][other], lambda c: c.startswith("reject"))
+        if acc and rej and other != key:
+            if i % 2 == 0:
+                pairs.append({"ops": [["iban", acc, {"validate_bban": True}], ["iban", rej, {"validate_bban": True}]],
+                              "targets": ["bank_index", "bank_index"], "label": f"IBAN {key} accept x {other} reject"})
+            else:
+                pairs.append({"ops": [["iban_props", acc], ["iban_checksum", rej]],
+                              "targets": ["bank_index", "bank_index"], "label": f"props {key} x checksum {other}"})
     # generic pairs: no algorithm object in common
     vi = pool["valid_ibans"]
     comp = pool["components"]
@@ -313,6 +326,9 @@ def worker_task(task: dict) -> dict:
           "interleavings": set(), "nontrivial": set(), "sites": {}, "violations": [], "samples": [],
           "digests": [], "ops": 0, "policies": {}, "exc_outcomes": 0, "cold_country_race": 0}
     results = []
+    if runner.past(task.get("deadline")):
+        recs = []
+        st["skipped"] = 1
     if task["kind"] == "sweep":
         batch_res = isolate.fork_call(run_batch_child, (recs,), timeout=600)
         for i, (rec, res) in enumerate(zip(recs, batch_res)):
@@ -331,6 +347,9 @@ def worker_task(task: dict) -> dict:
     else:
         results = (execute_record(rec) for rec in recs)
     for rec, res, viol in results:
+        if runner.past(task.get("deadline")):
+            st["skipped"] = st.get("skipped", 0) + 1
+            break
         st["runs"] += 1
         st["steps"] += res["steps"]
         st["switches"] += res["switches"]
@@ -595,7 +614,11 @@ def main() -> int:
                       "max_points": 60 if args.tier == "quick" else 100000})
     for ch in runner.chunks(list(range(nruns)), 100 if nruns > 20000 else 25):
         tasks.append({"kind": "random", "indices": ch, "vseed": vseed, "digests": args.digests})
+    deadline = runner.wall_cap(args.tier)
+    for t in tasks:
+        t["deadline"] = deadline
     wp = isolate.Pool(core.workers())
+    skipped = 0
     agg = {"runs": 0, "sweep_runs": 0, "steps": 0, "switches": 0, "conflict_runs": 0, "deadlocks": 0,
            "capped": 0, "lock_blocks": 0, "lock_acquires": 0, "opcode_runs": 0, "warm_runs": 0,
            "three_thread_runs": 0, "ops": 0, "exc_outcomes": 0, "cold_country_race": 0}
@@ -612,6 +635,7 @@ def main() -> int:
             for k in agg:
                 if k in st:
                     agg[k] += st[k]
+            skipped += st.get("skipped", 0)
             if task["kind"] == "sweep":
                 agg["sweep_runs"] += st["runs"]
             inter.update(st["interleavings"])
@@ -686,8 +710,11 @@ def main() -> int:
                                 "threading.local", "real OS threads"],
                        "stub": ["thread scheduling (baton + seeded policy)", "threading.Lock/RLock/Condition created by the package (SimLock)"]},
         "violations_seen": vcount,
+        "tasks_cut_short_by_wall_clock_cap": skipped,
         "tree_sha256": core.tree_digest(),
     }
+    if skipped:
+        print(f"note: wall-clock safety cap reached; {skipped} task(s) cut short (fewer runs, same verdict rules)")
     if not args.no_evidence:
         evidence.write(PROP, args.tier, vseed, cov, wall, unlisted, [
             "pre-emption only at line/opcode/return events inside the package; C-level sections and dependencies are atomic (true under the GIL)",
